@@ -256,6 +256,29 @@ def c11_case(rng, i):
     return "m%d mode=add rules=%s probes=%s lower=%d" % (i, hexlist(rules), hexlist(pn), lower)
 
 
+OVERLONG = 70000      # a physical line the loader's scanner (64 KiB token limit) cannot read: the load must FAIL
+
+
+def overlong_cases(rng):
+    """domain files with one line of 70000 octets (a giant comment, or entries that lost their newlines) before further
+    entries: the loader must report an error — a silently truncated set would let the names listed after that line
+    escape their rule (C10).  The Coq loader model has no token limit: these cases are judged by the oracle only."""
+    out = []
+    for j, big in enumerate([b"# " + b"=" * (OVERLONG - 2), b"domain:" + b".".join([b"x" * 60] * 1200)[:OVERLONG - 7], b"a" * OVERLONG]):
+        text = b"first.example\n" + big + b"\nlater.example\n"
+        probes = [gens.raw_name([b"later", b"example"]), gens.raw_name([b"first", b"example"])]
+        out.append("ol%d mode=load text=%s probes=%s lower=1" % (j, gens.hx(text), hexlist(probes)))
+    return out
+
+
+def matcher_oracle(line, res):
+    if line.startswith("ol") and " mode=load " in line:
+        if not res.startswith("L=err"):
+            return ("a domain file with a line of %d octets (longer than the scanner can read) was loaded without an error "
+                    "(entries after that line are silently missing): %s" % (OVERLONG, res[:60]))
+    return None
+
+
 def c11_matcher_gen(rng, tier):
     n = budget(tier, 40000, 1000000)
     return [c11_case(rng, i) for i in range(n)]
@@ -340,7 +363,9 @@ def readable_oracle(line, res):
 
 PROPS["C11"] = dict(
     kinds=[
-        dict(name="matcher", gen=c11_matcher_gen, respec=matcher_respec, respec_kind="matcherspec",
+        dict(name="matcher", gen=lambda rng, tier: overlong_cases(rng) + c11_matcher_gen(rng, tier), respec=matcher_respec,
+             respec_kind="matcherspec", oracle=matcher_oracle,
+             model_filter=lambda line: not line.startswith("ol"),
              nontrivial=matcher_nontrivial, classify=matcher_classify, shards=16, timeout=1500),
         dict(name="readable", gen=c11_readable_gen, oracle=readable_oracle, shards=8,
              nontrivial=lambda l, r: r.startswith("OK"), timeout=600),
